@@ -41,6 +41,15 @@ def psub_sym(p,s,val):
         r[m2]=r.get(m2,0)+c2
         if r[m2]==0: del r[m2]
     return r
+def psub_poly(p,s,q):
+    """substitute the polynomial q for the symbol s in p"""
+    r={}
+    for m,c in p.items():
+        d=dict(m); e=d.pop(s,0)
+        term={tuple(sorted(d.items())):c}
+        for _ in range(e): term=pmul(term,q)
+        r=padd(r,term)
+    return r
 def pshow(p):
     if not p: return '0'
     return ' + '.join('%s%s'%(c if c!=1 or not m else '', '*'.join('%s^%d'%(s,e) if e>1 else s for s,e in m)) for m,c in sorted(p.items()))
@@ -293,7 +302,7 @@ class State:
     def __init__(s): s.store={}; s.facts=[]; s.subst={}
     def clone(s):
         import copy
-        n=State(); n.facts=list(s.facts); n.subst=dict(s.subst); n.even=set(getattr(s,'even',())); n.signs=dict(getattr(s,'signs',{})); n.loopinv=dict(getattr(s,'loopinv',{}))
+        n=State(); n.facts=list(s.facts); n.subst=dict(s.subst); n.even=set(getattr(s,'even',())); n.signs=dict(getattr(s,'signs',{})); n.loopinv=dict(getattr(s,'loopinv',{})); n.divrems=list(getattr(s,'divrems',[])); n.nonzero=set(getattr(s,'nonzero',()))
         memo={}
         n.store=copy.deepcopy(s.store,memo)
         return n
@@ -651,6 +660,8 @@ class An:
                         if L is not None and L>=0: s.facts.append(('eq',f[1],TERM0))
             else:
                 _,what,symn,c=v
+                if (not truth) and symn is not None and what=='is_zero':
+                    s.nonzero=set(getattr(s,'nonzero',()))|{symn}
                 if truth and symn is not None:
                     if what=='is_zero': s.subst[symn]=0
                     elif what=='is_one': s.subst[symn]=1
@@ -793,6 +804,25 @@ class An:
             # |x| = x when x >= 0, -x when x < 0
             sp=psub_abs(sp,symn,-1 if sg=='neg' else 1); val=psub_abs(val,symn,-1 if sg=='neg' else 1)
         sp=red(sp); val=red(val)
+        cases=[({},'')]
+        for (sx,c_,qn,rn) in getattr(s,'divrems',[]):
+            lo,hi=-(c_-1),c_-1
+            sg=getattr(s,'signs',{}).get(sx)
+            if sg=='neg': hi=0
+            elif sg in('pos','nonneg'): lo=0
+            rs=[s.subst[rn]] if rn in s.subst else [x for x in range(lo,hi+1) if not (x==0 and rn in getattr(s,'nonzero',()))]
+            cases=[(dict(cs,**{sx:(c_,qn,rn,rv)}),ds+' %s = %d*q %+d'%(sx,c_,rv)) for cs,ds in cases for rv in rs]
+        if getattr(s,'divrems',[]):
+            bad=None
+            for cs,ds in cases:
+                sp_i,val_i=sp,val
+                for sx,(c_,qn,rn,rv) in cs.items():
+                    repl=padd(pmul(P(c_),sym(qn)),P(rv))
+                    sp_i=psub_sym(psub_poly(sp_i,sx,repl),rn,rv); val_i=psub_sym(psub_poly(val_i,sx,repl),rn,rv)
+                if red(sp_i)!=red(val_i): bad=(ds,pshow(red(val_i)),pshow(red(sp_i))); break
+            if bad: self.viol.append('VALUE wrong in the remainder case%s (sign of the remainder follows the dividend): result %s, exact %s'%bad)
+            else: self.ok+=1
+            return
         if sp!=val: self.viol.append('VALUE %s != spec %s under %s'%(pshow(val),pshow(sp),s.subst))
         else:
             self.ok+=1
@@ -828,6 +858,8 @@ class An:
         line=t['loc']['line']
         def T(i): return args[i] if i<len(args) and isterm(args[i]) else None
         if re.search(r'cmp::Ord::cmp$',d) and T(0) and T(1): v=('ord',T(0),T(1))
+        elif re.search(r'convert::From::from$|convert::Into::into$',d) and BIG.search(dest['ty']) and args and isinstance(args[0],tuple) and args[0] and args[0][0]=='int':
+            v=IntV(P(args[0][1]),TERM0)
         elif re.search(r'cmp::max$|cmp::Ord::max$',d) and T(0) and T(1): v=('max',T(0),T(1))
         elif re.search(r'cmp::min$|cmp::Ord::min$',d) and T(0) and T(1): v=('min',T(0),T(1))
         elif re.search(r'saturating_sub$',d) and T(0) and T(1):
@@ -853,6 +885,12 @@ class An:
         elif re.search(r'Roots::(nth_root|sqrt|cbrt)$|BigU?int::(nth_root|sqrt|cbrt)$',d) and args and isinstance(args[0],IntV):
             n_=3 if d.endswith('cbrt') else 2 if d.endswith('sqrt') else (args[1][1] if len(args)>1 and isinstance(args[1],tuple) and args[1][0]=='int' else None)
             v=IntV('lossy',('mulc',args[0].dim,Fraction(1,n_)) if n_ else ('unk','root@%d'%line)); self.lossy_seen.append(line)
+        elif re.search(r'Integer::div_rem$',d) and len(args)==2 and isinstance(args[0],IntV) and isinstance(args[1],IntV) and self.kind!='dims' and isinstance(args[0].val,dict) and self.single_sym(args[0].val) \
+                and isinstance(args[1].val,dict) and set(args[1].val.keys())=={()} and args[1].val[()].denominator==1 and 2<=args[1].val[()]<=10 and args[1].dim==TERM0:
+            # a = c*q + r with |r| < c and sign(r) = sign(a): kept symbolic, the remainder's few values are enumerated at the return
+            c_=int(args[1].val[()]); qn='q@%d'%line; rn='r@%d'%line
+            s.divrems=list(getattr(s,'divrems',[]))+[(self.single_sym(args[0].val),c_,qn,rn)]
+            v=('tuple',[IntV(sym(qn),args[0].dim),IntV(sym(rn),args[0].dim)])
         elif re.search(r'Integer::div_rem$',d) and len(args)==2 and isinstance(args[0],IntV) and isinstance(args[1],IntV):
             v=('tuple',[IntV('lossy',('sub',args[0].dim,args[1].dim) if args[1].dim!=TERM0 else args[0].dim),IntV('lossy',args[0].dim)]); self.lossy_seen.append(line)
         elif re.search(r'count_decimal_digits(_uint)?$|BigDecimal::digits$|BigDecimalRef(::<.*>)?::count_digits$',res): v=('unk','digits@%d'%line); s.facts.append(('le',('int',1),v))
@@ -948,8 +986,10 @@ class An:
             v=('int',0) if tr.endswith('Assign') else args[0]      # +/- a small unit in the last place of an already inexact integer
         elif tr in OPS and len(args)==2 and any(isinstance(x,IntV) for x in args[:2]) and all(isinstance(x,IntV) or (isinstance(x,tuple) and x and x[0]=='int') for x in args[:2]):
             # big integer (op) primitive literal
-            args=[x if isinstance(x,IntV) else IntV(P(x[1]),TERM0) for x in args[:2]]
             kind=OPS[tr]
+            big=[x for x in args[:2] if isinstance(x,IntV)][0]
+            # a literal added to / subtracted from a big integer counts units of that integer's last place
+            args=[x if isinstance(x,IntV) else IntV(P(x[1]),big.dim if kind in('add','sub') else TERM0) for x in args[:2]]
             r=self.intop(s,t,kind,args[0],args[1],d.split('::')[-1])
             if tr.endswith('Assign'):
                 tgt=args[0]
